@@ -167,5 +167,11 @@ void h_run(void) {
   } else {
     h_lin_verdict("C15-not-linearizable");
   }
+  /* teardown */
+  if (kind == Q_MPSC) mpsc_fifo_destroy(&mq);
+  else if (kind == Q_SPSC) spsc_fifo_destroy(&sq);
+  else mpscr_fifo_destroy(rq);
+  free(mq_p);
+  free(sq_p);
   sim_finish_ok();
 }
